@@ -52,7 +52,9 @@ def check_roundtrip(r, exact):
         for s, e in ne:
             for q in range(s, e):
                 cover[q - off] = raw[q] if q < len(raw) else None
-        maxe = max([e for s, e in iv] + [off]) - off
+        # the region the parse traversed: every cursor position a leaf read started or ended at (a read-to-end string
+        # placed by alignment beyond the end of the input starts there and hands back the input's end: start > end)
+        maxe = max([max(s, e) for s, e in iv] + [off]) - off
         if len(out) < maxe:
             return f"output shorter ({len(out)}) than the consumed region ({maxe})"
         for i, b in enumerate(out):
@@ -142,4 +144,7 @@ def replay(f):
                    dict(header=decl.HEADER_PY, blocks=blocks, modname='c01r',
                         cases=[dict(cls=name, op='roundtrip', raw=f['raw'], offset=f['offset'], record=True)]))
     o = res['outcomes'][0]
-    return o.get('packed') == f['observed'], dict(observed=o, failure=f['what'])
+    if 'ok' not in o:
+        return False, dict(observed=o, note='the input no longer parses')
+    why = check_roundtrip(dict(outcome=o, raw=bytes.fromhex(f['raw']) if isinstance(f['raw'], str) else f['raw'], offset=f['offset']), True)
+    return why is not None, dict(observed=o, failure=why)
